@@ -679,8 +679,8 @@ dt_strpdt(const char *str, const char *fmt, char **ep)
 
 	case DT_LDN:
 		res.d.ldn = (dt_ldn_t)strtoi32(str, &sp);
-		if (UNLIKELY(sp == str)) {
-			/* no number there at all */
+		if (UNLIKELY(sp == str || sp[-1] < '0' || sp[-1] > '9')) {
+			/* no number there at all, or just a sign */
 			goto fucked;
 		} else if (*sp == '.') {
 			/* oooh, a double it seems */
@@ -708,8 +708,8 @@ dt_strpdt(const char *str, const char *fmt, char **ep)
 
 	case DT_MDN:
 		res.d.mdn = (dt_ldn_t)strtoi32(str, &sp);
-		if (UNLIKELY(sp == str)) {
-			/* no number there at all */
+		if (UNLIKELY(sp == str || sp[-1] < '0' || sp[-1] > '9')) {
+			/* no number there at all, or just a sign */
 			goto fucked;
 		} else if (*sp == '.') {
 			/* oooh, a double it seems */
